@@ -48,7 +48,7 @@ def emit(depth, simulate=None, seed=0, ops=ALL_OPS, inits=INITS, on_batch=None):
     name, mod, cfg = tlc.mc("DyadAlg", consts(depth, True, ops, inits), invariants=["Emit"])
     sink = par.Batcher("BEH", 3000, on_batch) if on_batch else None
     r = tlc.run(name, cfg, extra_modules={name: mod}, workers=1, simulate=simulate,
-                depth=depth + 4 if simulate else None, seed=seed, timeout=3000, sink=sink)
+                depth=depth + 4 if simulate else None, seed=seed, timeout=9000, sink=sink)
     if sink is not None:
         sink.flush()
     return r
@@ -320,7 +320,9 @@ def run(chk, replay=None):
     for k in range(len(INITS)):
         plan.append((2, None, 0, ALL_OPS, [INITS[k]]))
         if thorough:
-            plan.append((3, None, 0, [o for o in ALL_OPS if o not in ("elem", "diag", "slice")], [INITS[k]]))
+            # every sequence of three operations over about half of the operations (the full set is ~150 branches per step)
+            plan.append((3, None, 0, ["add", "iadd", "isub", "neg", "copy", "addzero", "T", "conj", "lmul", "matmul", "matvec", "contract_dense",
+                                      "contract_batch", "trace", "fancy", "zrows", "zcols"], [INITS[k]]))
     # focused deeper enumeration: the observers (contractions, products, trace) interleaved with the in-place mutators
     # (row / column zeroing, +=) - anything an observer remembers must be forgotten when the carrier changes
     FOCUS = ["contract_batch", "contract_dense", "contract_sparse", "trace", "matvec", "vecmat", "zrows", "zcols", "iadd"]
